@@ -134,7 +134,9 @@ P["C09"]["functions"] += ["(*payload.PartDecoder).Read"]
 # additions to the receiver-side properties
 P["C01"]["functions"] += [S+"Recover", S+"Recover$2"]
 P["C01"]["labels"][S+"Recover"] = ["recovered-wait-bodies-are-validated", "no-direct-finalize", "no-direct-delivery", "only-complete-partials-are-renamed"]
-P["C05"]["functions"] += [S+"initStageFile", S+"Prepare"]
+P["C05"]["functions"] += [S+"initStageFile", S+"Prepare", S+"buildCache"]
+P["C01"]["functions"] += [S+"buildCache"]
+P["C01"]["labels"][S+"buildCache"] = ["log-refill-never-overwrites"]
 P["C06"]["functions"] += [S+"Recover"]
 P["C06"]["labels"][S+"Recover"] = ["wait-body-is-finalized", "full-or-complete-is-validated", "only-complete-partials-are-renamed", "orphan-companion-only", "not-ready-for-duration"]
 P["C04"]["functions"] += [B+"startRetry", "(*queue.Tagged).Pop"]
